@@ -352,6 +352,54 @@ def r03f(ctx):
         raise AnalysisError("R03f: no save wrapper with a cleaner and a writer found in Container")
 
 
+_FIXTURE_G = '''
+def bad(self, target, backup):
+    if hasattr(target, "seek"):
+        target.seek(0)
+    self._save_zip(target)
+def ok(self, target, backup):
+    if hasattr(target, "seek"):
+        target.seek(0)
+        target.truncate()
+    self._save_zip(target)
+'''
+
+
+def _rewinds(fn: ast.AST) -> list[ast.Call]:
+    """`.seek(…)` calls on a parameter of the function that no `.truncate()` on the same parameter accompanies."""
+    params = {a.arg for a in fn.args.posonlyargs + fn.args.args + fn.args.kwonlyargs}
+    seeks = [c for c in ast.walk(fn) if isinstance(c, ast.Call) and call_name(c) == "seek" and isinstance(c.func, ast.Attribute) and isinstance(c.func.value, ast.Name)
+             and c.func.value.id in params]
+    trunc = {c.func.value.id for c in ast.walk(fn) if isinstance(c, ast.Call) and call_name(c) == "truncate" and isinstance(c.func, ast.Attribute) and isinstance(c.func.value, ast.Name)}
+    return [c for c in seeks if c.func.value.id not in trunc]
+
+
+def r03g(ctx):
+    """A file-like save target is written where it stands, or emptied first.
+
+    zipfile locates an archive from the end of the file.  Appending a new archive after whatever the target already holds is harmless;
+    rewinding the target and writing a shorter archive over a longer one leaves the old tail (with its central directory) in place, and
+    that stale directory is what a reader finds.  Rule over the save path of Container (expected count 0, fixture on every run): no
+    `.seek()` on a target parameter without a `.truncate()` on it in the same function.
+    """
+    repo = ctx.repo
+    ctx.rule("R03g", "a file-like save target is never repositioned without being truncated", floor=5)
+    c = repo.cls("Container")
+    for name, fs in c.methods.items():
+        if not (name == "save" or name.startswith("_save")):
+            continue
+        f = fs[0]
+        bad = _rewinds(f.node)
+        ctx.instance("R03g", f"{f.file}:{f.ident}", "target written where it stands" if not bad else f"{norm(bad[0], 40)} without truncate()", ok=not bad, nontrivial=bool(bad), line=f.node.lineno)
+        for b in bad:
+            ctx.report("R03g", f, b, f"{norm(b, 40)} without truncate()",
+                       f"{f.ident} repositions the file-like target and writes over its content without truncating it: when the new archive is shorter than what the "
+                       f"buffer held, the old tail with its central directory survives and the saved package reads back as the old (or a corrupt) document")
+    got = {fn.name: len(_rewinds(fn)) for fn in ast.parse(_FIXTURE_G).body}
+    if got != {"bad": 1, "ok": 0}:
+        raise AnalysisError(f"R03g fixture: rewind detector broken: {got}")
+
+
 def run(ctx):
     r03a(ctx)
     r03b(ctx)
@@ -359,6 +407,7 @@ def run(ctx):
     r03d(ctx)
     r03e(ctx)
     r03f(ctx)
+    r03g(ctx)
 
 
 from ..selftest import Seed, unparse_seed  # noqa: E402
@@ -366,6 +415,12 @@ from ..selftest import Seed, unparse_seed  # noqa: E402
 _CT = "src/odfdo/container.py"
 _DOC = "src/odfdo/document.py"
 SEEDS = [
+    Seed("zip save rewinds a reused buffer", "fault", _CT,
+         "        if isinstance(target, (str, Path)) and backup:\n            self._do_backup(target)\n        self._save_zip(target)",
+         "        if isinstance(target, (str, Path)):\n            if backup:\n                self._do_backup(target)\n        elif target.seekable():\n            target.seek(0)\n        self._save_zip(target)", "R03g"),
+    Seed("zip save empties a reused buffer first", "neutral", _CT,
+         "        if isinstance(target, (str, Path)) and backup:\n            self._do_backup(target)\n        self._save_zip(target)",
+         "        if isinstance(target, (str, Path)):\n            if backup:\n                self._do_backup(target)\n        elif target.seekable():\n            target.seek(0)\n            target.truncate()\n        self._save_zip(target)"),
     Seed("folder save cleans the name without the .folder suffix", "fault", _CT,
          '        if not str(target).endswith(".folder"):\n            target = str(target) + ".folder"\n        self._backup_or_unlink(backup, target)\n',
          '        self._backup_or_unlink(backup, target)\n        if not str(target).endswith(".folder"):\n            target = str(target) + ".folder"\n', "R03f"),
